@@ -23,7 +23,8 @@ AllNulls / Reader, alter, drop, interleaved with append, delete, compaction):
                           dropping the last column that has a data file leaves fragments without data files
   drop_readable_iff       exactly when drop_columns leaves the table readable;  add_readable;
   readable_step           every operation other than drop_columns keeps the table readable
-  add_values_sql / _nulls / _reader   the new columns hold exactly the requested values and get the next field ids
+  add_values_sql / _nulls / _reader / _merge   the new columns hold exactly the requested values (merge: the hash join on
+                          the key column) and get the next field ids above Manifest::max_field_id
   add_ids_fresh           ids handed out by add are stored by no data file and used by no field of the version before
   drop_readd_fresh        … in particular for a name dropped earlier in the history: NULL / the new values, never old data
   alter_values            a renamed / re-typed / nullability-changed column keeps its cells (a cast field gets a fresh id)
@@ -290,6 +291,18 @@ theorem readable_step (t t' : Tbl) (op : Op) (hw : WF t) (hr : t.readable = true
   | addReader bs cs rows tr => exact add_readable t t' _ hr h (Or.inr (Or.inr ⟨bs, cs, rows, tr, rfl⟩))
   | alter alts => exact alter_readable t t' alts hw hr h
   | drop cs => exact absurd rfl (hnd cs)
+  | merge c cs rows =>
+    simp only [step, mergeCols] at h
+    split at h
+    · cases h
+    · split at h
+      · cases h
+      · split at h
+        · cases h
+        · split at h
+          · cases h
+          · cases h
+            simp [Tbl.readable, addFile]
 
 /-! ## added values -/
 
@@ -320,6 +333,20 @@ theorem add_values_reader (t t' : Tbl) (bs : Option Nat) (cs : List ColDef) (row
 example : ∃ t', step exT (.addReader none [⟨"r", .i32, false⟩] [[some 4], [some 5]] false) = .ok t' ∧
     scanCol t' 1 = [some 4, some 5] := ⟨_, rfl, by decide⟩
 
+/-- `add_values`, Dataset::merge (hash-join add): the j-th right-hand value column gets field id `max_field_id + 1 + j` -
+    numbered from the MANIFEST's maximum, so no data file of the version stores it - and scans to the join of the key
+    column with the right-hand rows (`joinCell`: the value of the row with that key; the code refuses the merge when a
+    live row would get a NULL in an Int32 / Int64 column, see `mergeNulls`) -/
+theorem add_values_merge (t t' : Tbl) (c : String) (cs : List ColDef) (rows : List Row)
+    (h : step t (.merge c cs rows) = .ok t') (j : Nat) (hj : j < cs.length) :
+    ∃ key, findFld t.schema c = some key ∧
+      ∃ fl ∈ t'.schema, fl.name = cs[j].name ∧ fl.id = t.maxFieldId + 1 + j ∧ fl.id ∉ t.fileIds ∧
+        scanCol t' fl.id = (scanCol t key.id).map (joinCell rows j) :=
+  mergeCols_values t t' c cs rows h j hj
+
+example : ∃ t', step exT (.merge "a" [⟨"m", .i32, true⟩] [[some 1, some 11], [some 7, some 77], [some 9, some 99]]) = .ok t' ∧
+    scanCol t' 1 = [some 77, some 11] := ⟨_, rfl, by decide⟩
+
 /-! ## drop, then re-add the name -/
 
 /-- `drop_readd_fresh`: drop a column, run ANY history, add a column of the same name again (here as AllNulls; for the
@@ -348,6 +375,23 @@ theorem drop_readd_fresh_reader (t0 t1 t3 : Tbl) (n : String) (ops : List Op) (b
       scanCol t3 fl.id = colOf rows 0 := by
   obtain ⟨fl, hfl, h1, h2, h3, _⟩ := add_values_reader _ _ _ _ _ _ ha 0 (by simp)
   exact ⟨fl, hfl, by simpa [hname] using h1, by omega, fresh_not_stored _ _ (by omega), h3⟩
+
+/-- the same for a column re-added by Dataset::merge - the history of the seeded change of C05/1: drop the column with the
+    highest field id while a shared data file still stores it, then merge: the new field's id is above everything the data
+    files store, and the column holds the joined values -/
+theorem drop_readd_fresh_merge (t0 t1 t3 : Tbl) (n : String) (ops : List Op) (c : String) (d : ColDef) (rows : List Row)
+    (hname : d.name = n) (_hd : step t0 (.drop [n]) = .ok t1) (ha : step (run t1 ops) (.merge c [d] rows) = .ok t3) :
+    ∃ key, findFld (run t1 ops).schema c = some key ∧
+      ∃ fl ∈ t3.schema, fl.name = n ∧ (run t1 ops).maxFieldId < fl.id ∧ fl.id ∉ (run t1 ops).fileIds ∧
+        scanCol t3 fl.id = (scanCol (run t1 ops) key.id).map (joinCell rows 0) := by
+  obtain ⟨key, hk, fl, hfl, h1, h2, h3, h4⟩ := add_values_merge _ _ _ _ _ ha 0 (by simp)
+  exact ⟨key, hk, fl, hfl, by simpa [hname] using h1, by omega, h3, h4⟩
+
+/-- create a, b; drop b (its values stay in the shared data file: max_field_id stays 1); merge b back on key a: id 2 -/
+example : ∃ t1 t3, step (create [⟨"a", .i64, true⟩, ⟨"b", .i64, true⟩] [[some 1, some 10], [some 2, some 20]]) (.drop ["b"]) = .ok t1 ∧
+    t1.maxFieldId = 1 ∧ step t1 (.merge "a" [⟨"b", .i64, true⟩] [[some 2, some 5], [some 1, some 6]]) = .ok t3 ∧
+    t3.schema.map (·.id) = [0, 2] ∧ t3.frags.map Frag.fileIds = [[0, 1, 2]] ∧ scanCol t3 2 = [some 6, some 5] :=
+  ⟨_, _, rfl, by decide, rfl, by decide, by decide, by decide⟩
 
 /-- non-vacuity, and the dangerous history: `x` is added with its own data file (field id 1), dropped (the file goes, the
     computed max_field_id falls back to 0), and re-added: the new `x` gets id 1 AGAIN — and still reads NULL, because no
